@@ -74,6 +74,8 @@ def run_case(case, ctx):
         spec.notes['amplitude_threshold'] = [0.5, 0.3][int(rng.integers(0, 2))]     # params.py options
     if rng.random() < 0.2:
         spec.notes['n_closest_channels'] = 4
+    if rng.random() < 0.2:
+        spec.notes['template_scaling'] = [20.0, 0.5][int(rng.integers(0, 2))]      # every unwhitened waveform carries this factor
     opts['config'] = {k: spec.notes.get(k) for k in ('amplitude_threshold', 'n_closest_channels')}
     curated = spec.curated
     st, sc = spec.spike_templates.astype(np.int64), spec.clusters.astype(np.int64)
@@ -101,6 +103,35 @@ def run_case(case, ctx):
                 dd = same(np.asarray(m.sparse_clusters.data), T, dtype=False)
                 if dd:
                     ctx.violation('cluster_waveform', desc, 'uncurated: cluster waveforms != template waveforms: ' + dd, f)
+                if case['seed'][-1] % 2 == 0:
+                    # history: first session on an uncurated dataset (spike_clusters.npy possibly absent), merges and
+                    # splits are saved with save_spike_clusters, the dataset is loaded again: provenance as saved
+                    import copy
+                    import os
+                    from gen.dataset import curate
+                    new = curate(np.random.default_rng(list(case['seed']) + [8]), st.copy(), 3).astype(np.int32)
+                    if not np.array_equal(new, st):
+                        ctx.cell('curated_saved_reloaded')
+                        f2 = dict(f, saved_and_reloaded=True)
+                        rs = call(m.save_spike_clusters, new)
+                        call(m.close)
+                        r2 = call(load_model, os.path.join(d, 'params.py'))
+                        if not rs.ok or not r2.ok:
+                            ctx.violation('raised', desc, 'save_spike_clusters / reload raised %r' % (rs.exc or r2.exc,), dict(f2, exc=(rs.exc_name or r2.exc_name)), tb=rs.tb or r2.tb)
+                            return
+                        spec2 = copy.copy(spec)
+                        spec2.spike_clusters = new
+                        mm2, nan2 = rt.merge_map(spec2)
+                        m2 = r2.value
+                        try:
+                            got2 = {int(k): sorted(int(x) for x in v) for k, v in m2.merge_map.items()}
+                            if got2 != mm2 or sorted(int(x) for x in np.asarray(m2.nan_idx).tolist()) != nan2:
+                                ctx.violation('merge_map', desc, 'after saving a curation %r and reloading: merge_map %r / nan_idx %r, expected %r / %r' % (
+                                    new.tolist()[:30], got2, np.asarray(m2.nan_idx).tolist(), mm2, nan2), f2)
+                            if same(np.asarray(m2.spike_templates).astype(np.int64), st, dtype=False):
+                                ctx.violation('merge_map', desc, 'spike_templates changed by saving the clusters', f2)
+                        finally:
+                            call(m2.close)
                 return
             # provenance
             got_mm = {int(k): sorted(int(x) for x in v) for k, v in m.merge_map.items()}
@@ -173,7 +204,7 @@ def run_case(case, ctx):
                                       ('template' if ts else 'zeros')), dict(f, n_templates=min(len(ts), 2)))
                     break
             # public mean waveforms (unwhitened)
-            U = {t: rt.unwhitened(spec, t, True) for t in range(nt)}
+            U = {t: rt.unwhitened(spec, t, True) * (spec.notes.get('template_scaling') or 1.0) for t in range(nt)}
             ownU = {t: chans(spec, U[t]) for t in range(nt)}
             for c in multi[:3]:
                 ts = mm[c]
